@@ -22,7 +22,7 @@ func init() {
 		Technique: "effect-level ownership monitor at every commit of the fake Postgres + before/after comparison of every other pair's state around each step + per-pair reference projection at quiescence; sequential and concurrent interleavings with wire delays",
 		Rule: "each case draws 1–2 sources and 2–4 integrations (shared or separate tables; same event with different address filters, or independent declarations of mixed modes; integrations attached to one or both sources), batch/concurrency per source, " +
 			"then interleaves steps of all pairs in random order (even cases: sequentially, comparing every other pair's rows and positions before/after each step; odd cases: rounds of truly concurrent Converge calls with random delays at both wire boundaries), with head growth, reorgs on one source (hash plans), restarts and position-history pruning (PruneTask with a small keep count: every pair must retain exactly its newest positions), " +
-			"and finally settles and compares every pair's rows with its own projection. signature = (sources, integrations, table sharing, modes, concurrent?, reorgs?, restarts?); trivial = fewer than two pairs wrote rows.",
+			"and finally settles and compares every pair's rows with its own projection. signature = (sources, integrations, table sharing, modes, concurrent?, reorgs?, restarts?); trivial = fewer than two pairs wrote rows. One case in sixteen is the stored-pair scenario: a file pair and a pair loaded from shovel.integrations (event inputs and block_num selected, as the add-integration page offers) on one table; the stored pair digests a reorganisation first.",
 		Assumptions: []string{
 			"the pair a transaction acts for is the pair named in its shovel.task_updates statements",
 			"integrations sharing a table use the same column set (schema union is C16's subject)",
